@@ -208,10 +208,10 @@ def check(run, case):
     if 'binary-short-span-raises-every-call' in regs and 'error' in set(excs):
         run.known('binary-short-span-raises-every-call', "'{}' at the head of the buffer makes the binary framer raise struct.error on every later call", case)
         excused |= {'not-delivered-after-bound', 'backlog-unbounded'}
-    if 'rtu-one-frame-per-call' in regs:
+    if 'rtu-one-frame-per-call' in regs and kinds & {'not-delivered-after-bound', 'backlog-unbounded'}:
         run.known('rtu-one-frame-per-call', 'RTU framer handles one frame per receive call: with k frames per read the backlog grows without bound', case)
         excused |= {'not-delivered-after-bound', 'backlog-unbounded'}
-    if 'binary-pipelined-frame-skipped' in regs:
+    if 'binary-pipelined-frame-skipped' in regs and 'not-delivered-after-bound' in kinds:
         run.known('binary-pipelined-frame-skipped', 'binary framer skips every second back-to-back frame', case)
         excused |= {'not-delivered-after-bound'}
     left = kinds - excused
